@@ -96,7 +96,10 @@ impl<'a> GeneratorState<'a> {
                                 if *r == 0 {
                                     return Err(self.compiler_state.syntax_error("Division by zero", pos));
                                 }
-                                return Ok(ExprType::Immediate(l / r))
+                                return match l.checked_div(*r) {
+                                    Some(v) => Ok(ExprType::Immediate(v)),
+                                    None => Err(self.compiler_state.syntax_error("Constant expression overflow", pos)),
+                                };
                             },
                             _ => { return Err(self.compiler_state.compiler_error("Arithmetics is partially implemented", pos)); },
                         } 
